@@ -378,8 +378,10 @@ func streamUncompressed(o *Out, rng *rand.Rand, thorough bool, _ []string) {
 		// the same metric keys as document 5 (so the schema-aware wrapper sees no change) but another number of
 		// top-level fields (so the wrapped uncompressed collector refuses it)
 		hx(docBytes([]*Node{i64n("v", 8)})),
+		// an empty sample document (no fields at all): a sample like any other
+		hx(docBytes(nil)),
 	}
-	alphabet := []string{"a0", "a1", "a2", "a3", "a4", "a5", "a8", "x", "r", "z", "f", "m6", "m7", "i"}
+	alphabet := []string{"a0", "a1", "a2", "a3", "a4", "a5", "a8", "a9", "x", "r", "z", "f", "m6", "m7", "i"}
 	maxLen := 3
 	if thorough {
 		maxLen = 4
